@@ -19,6 +19,8 @@ func init() {
 			r.Try(func() { reexport(w, r, "R15.23", func(sub *Report) { checkGoStatements(w, sub) }, "R09.4") })
 			r.Rule("R15.25", 5, "a failure of resolution is reported as it is: every return reached on the non-nil edge of the error of Get / GetKeyed / GetGroup / resolve / createInstance hands that error on")
 			r.Try(func() { ruleResolutionErrorsKept(w, r, "R15.25") })
+			r.Rule("R15.26", 1, "no operation panics with an index out of range: no slice field of collection / scope / provider is indexed or resliced with an unchecked parameter")
+			r.Try(func() { ruleNoStaleIndex(w, r, "R15.26") })
 			r.Rule("R15.24", 3, "a constructor's error is the constructor's own: the function a descriptor runs is the one that was registered - descriptors are never rewritten (a wrapper swapped in for the constructor sees its results before the invoker has looked at the error)")
 			r.Try(func() { ruleDescriptorImmutable(w, r, "R15.24") })
 			r.Rule("R15.21", 1, "no operation panics on an incomparable service instance: instances are never compared with == through the Disposable interface")
